@@ -276,7 +276,12 @@ pub fn rand(min: u64, max: u64, unused3: u64, unused4: u64, unused5: u64) -> u64
     });
 
     if min < max {
-        n = n % (max + 1 - min) + min;
+        // Number of values in [min, max]; wraps to 0 when the range is the whole of u64, in which
+        // case any value of n is already in range.
+        let range = (max - min).wrapping_add(1);
+        if range != 0 {
+            n = n % range + min;
+        }
     };
     n
 }
